@@ -644,6 +644,13 @@ func TestVerifC07ValidatorSets(t *testing.T) { runProp(t, c07Spec()) }
 
 func c04Oracle(s *sim, op Op, idx int) {
 	ctx := context.Background()
+	// the node must keep building on the block it recorded as committed: an honest proposal for the
+	// voting round on top of the recorded committed header (certificate copied from the node's own
+	// committing view) is never turned away
+	if len(s.macroRejected) > 0 {
+		s.failf("", "honest-child-rejected", "%s", s.macroRejected[0])
+		return
+	}
 	// (a) + (b): heights present are exactly initial..committing, hashes never change
 	top := uint64(0)
 	for h := s.w.init; h <= s.vv.Height+2; h++ {
